@@ -493,6 +493,25 @@ theorem head_basis_counter_overflows :
     have : i = 0 := by have : i < 1 := hi; omega
     subst this; rw [hk]; decide
 
+/-- **With the proposed repair** (fixes/C13-7.diff: `size_t row, col, k`) the clause weakens from "fewer than 2^31 cells"
+    to "the cell count fits `size_t`": `bsplinebasis` is then safe for every accepted dimension whose knot vector is
+    shorter than 2^31 — in particular for `wBigBasis` (confirmed on the real code: the repaired build completes the
+    call under ASan+UBSan without a report). -/
+theorem proposed_basis_counter_safe (a : Args) (hc : fitChecks repaired a = .ok) (i : Nat) (hi : i < a.data.ndim)
+    (hnk : a.nkAt i < I32) (hcells : a.rangeOf i * a.nsplAt i < U64) :
+    bsplineBasisW64 (a.nkAt i) (a.rangeOf i) (a.coordLen i) (a.ordAt i) = .ok := by
+  have hn := checks_imply_needs a hc
+  have := hn.knots_len i hi
+  exact bsplineBasisW64_ok (by omega) (hn.coord_len i hi) hnk hcells
+
+theorem proposed_basis_counter_safe_witness :
+    bsplineBasisW64 (wBigBasis.nkAt 0) (wBigBasis.rangeOf 0) (wBigBasis.coordLen 0) (wBigBasis.ordAt 0) = .ok := by
+  have hk : wBigBasis.nkAt 0 = 32770 := uni_nkAt (by omega)
+  have hr : wBigBasis.rangeOf 0 = 65536 := uni_rangeOf (by omega)
+  have hs : wBigBasis.nsplAt 0 = 32769 := uni_nsplAt (by omega) (by omega)
+  exact proposed_basis_counter_safe _ head_basis_counter_overflows.2.1 0 (by decide) (by rw [hk]; decide)
+    (by rw [hr, hs]; decide)
+
 /-- 8 dimensions with 256 basis functions each: consistent, accepted, and `ncoeffs = strides[0]*naxes[0]` wraps to 0 —
     the table would describe 2^64 coefficients and own none.  (On the real code this call ends in "GLAM fit failed"
     and an empty table, without a sanitizer report: the product clause of `NoWrapB` is sufficient, not necessary.) -/
@@ -698,8 +717,10 @@ theorem upstream_entry_witnesses :
 /-- non-vacuity of the entry-point theorems: `good` satisfies their hypotheses, `wPenalty` is inconsistent -/
 example : good.data.WF ∧ NoWrapB good = true ∧ Needs good ∧ ¬ Needs wPenalty ∧
     (fitEntry repaired head wPenalty .done (some (fitShape good))).1 ≠ .ok ∧
+    (fitEntry repaired head wPenalty .done (some (fitShape good))).1.isFault = false ∧
     (cGlamfitEntry repaired head false false ⟨good.data, [2, 0], good.knots, [true, true], [0, 3], 1⟩ .done none).1 ≠ 0 := by
-  refine ⟨⟨rfl, rfl, by decide⟩, by decide, checks_imply_needs _ (by decide), fun h => ?_, by decide, by decide⟩
+  refine ⟨⟨rfl, rfl, by decide⟩, by decide, checks_imply_needs _ (by decide), fun h => ?_, by decide, by decide,
+    by decide⟩
   have := h.pen_le 0 (by decide)
   revert this; decide
 
